@@ -10,76 +10,109 @@
 (* The line filler is a transition system: `line` accumulates words,       *)
 (* action Place adds the next word when it fits (or the line is empty),    *)
 (* action Break closes the line otherwise (greedy), a forced break closes  *)
-(* it after a marked word (pre-line).                                      *)
+(* it after a marked word (pre-line); PlacePart cuts a word that does not  *)
+(* fit on a line of its own (overflow-wrap: break-word).                   *)
 (***************************************************************************)
 EXTENDS Integers, Sequences, FiniteSets, TLC, Json
 
 CONSTANTS MaxWords, MaxW
 
-VARIABLES scn, i, line, lines, phase
-vars == <<scn, i, line, lines, phase>>
+VARIABLES scn, i, off, line, lines, phase
+vars == <<scn, i, off, line, lines, phase>>
 
 Aligns == {"left", "right", "center", "justify"}
 WordSeqs == UNION {[1..m -> 1..3] : m \in 1..MaxWords}
 \* ws: "normal" | "nowrap" | "pre-line" (a line feed after word `nl`)
-\* span: 0 = no inline box, otherwise the inline box wraps words 2..span with `pad` em of padding on each side
-Scn == {[words |-> w, W |-> cw, align |-> a, indent |-> ind, ws |-> ws, nl |-> nl, span |-> sp, pad |-> pd] :
-          w \in WordSeqs, cw \in 1..MaxW, a \in Aligns, ind \in {0, 2}, ws \in {"normal"}, nl \in {0}, sp \in {0}, pd \in {0}}
-       \cup {[words |-> w, W |-> cw, align |-> "left", indent |-> 0, ws |-> ws, nl |-> nl, span |-> 0, pad |-> 0] :
-          w \in WordSeqs, cw \in {3, 6}, ws \in {"nowrap", "pre-line"}, nl \in 1..2}
-       \cup {[words |-> w, W |-> cw, align |-> a, indent |-> 0, ws |-> "normal", nl |-> 0, span |-> sp, pad |-> 1] :
-          w \in {x \in WordSeqs : Len(x) >= 2}, cw \in 2..MaxW, a \in {"left", "right"}, sp \in 2..MaxWords}
+\* span: 0 = no inline box, otherwise the inline box wraps words 2..span, with `pad` em of `edge` (padding, margin or
+\*       border) on each side
+\* last: text-align-last ("auto" or "right"); ow: overflow-wrap: break-word
+Base == [words |-> <<1>>, W |-> 1, align |-> "left", indent |-> 0, ws |-> "normal", nl |-> 0, span |-> 0, pad |-> 0,
+         edge |-> "padding", last |-> "auto", ow |-> FALSE]
+\* (Init enumerates the four families directly; building their union as one set is slow in TLC)
+ScnInit(v) ==
+  \/ \E w \in WordSeqs, cw \in 1..MaxW, a \in Aligns, ind \in {0, 2} :
+        v = [Base EXCEPT !.words = w, !.W = cw, !.align = a, !.indent = ind]
+  \/ \E w \in WordSeqs, cw \in {3, 6}, ws \in {"nowrap", "pre-line"}, nl \in 1..2, a \in {"left", "justify"}, la \in {"auto", "right"} :
+        v = [Base EXCEPT !.words = w, !.W = cw, !.ws = ws, !.nl = nl, !.align = a, !.last = la]
+  \/ \E w \in {x \in WordSeqs : Len(x) >= 2}, cw \in 2..MaxW, a \in {"left", "right"}, sp \in 2..MaxWords, e \in {"padding", "margin", "border"} :
+        v = [Base EXCEPT !.words = w, !.W = cw, !.align = a, !.span = sp, !.pad = 1, !.edge = e]
+  \/ \E w \in WordSeqs, cw \in 1..MaxW, sp \in {0} \cup 2..MaxWords :
+        v = [Base EXCEPT !.words = w, !.W = cw, !.span = sp, !.ow = TRUE]
 
 N(s) == Len(s.words)
-\* extra width carried by word k: the padding of the inline box at its first / last word
-Before(s, k) == IF s.span >= 2 /\ s.span <= N(s) /\ k = 2 THEN s.pad ELSE 0
-After(s, k)  == IF s.span >= 2 /\ s.span <= N(s) /\ k = s.span THEN s.pad ELSE 0
-WordW(s, k) == Before(s, k) + s.words[k] + After(s, k)
+HasSpan(s) == s.span >= 2 /\ s.span <= N(s)
+\* a line is a sequence of items [k, from, to]: the characters from..to of word k
+Whole(s, k) == [k |-> k, from |-> 1, to |-> s.words[k]]
+\* extra width carried by an item: the edge of the inline box before its first / after its last character
+Before(s, it) == IF HasSpan(s) /\ it.k = 2 /\ it.from = 1 THEN s.pad ELSE 0
+After(s, it)  == IF HasSpan(s) /\ it.k = s.span /\ it.to = s.words[it.k] THEN s.pad ELSE 0
+ItemW(s, it) == Before(s, it) + (it.to - it.from + 1) + After(s, it)
 RECURSIVE SumW(_, _)
-SumW(s, ks) == IF ks = <<>> THEN 0 ELSE WordW(s, Head(ks)) + SumW(s, Tail(ks))
-\* width of a line holding the words ks: words, inline-box paddings and single spaces between words
-LineW(s, ks) == IF ks = <<>> THEN 0 ELSE SumW(s, ks) + Len(ks) - 1
+SumW(s, its) == IF its = <<>> THEN 0 ELSE ItemW(s, Head(its)) + SumW(s, Tail(its))
+\* width of a line: items, inline-box edges and single spaces between words
+LineW(s, its) == IF its = <<>> THEN 0 ELSE SumW(s, its) + Len(its) - 1
 Avail(s, nlines) == IF nlines = 0 THEN s.W - s.indent ELSE s.W
 
-Init == /\ scn \in Scn /\ i = 1 /\ line = <<>> /\ lines = <<>> /\ phase = "fill"
+Init == /\ ScnInit(scn) /\ i = 1 /\ off = 0 /\ line = <<>> /\ lines = <<>> /\ phase = "fill"
 
-Fits == line = <<>> \/ scn.ws = "nowrap" \/ LineW(scn, Append(line, i)) <= Avail(scn, Len(lines))
+Rest == [k |-> i, from |-> off + 1, to |-> scn.words[i]]      \* what remains of word i
+Fits == line = <<>> \/ scn.ws = "nowrap" \/ LineW(scn, Append(line, Rest)) <= Avail(scn, Len(lines))
+AfterFeed == scn.ws = "pre-line" /\ line # <<>> /\ line[Len(line)].k = scn.nl
+\* overflow-wrap: break-word — ONLY a word that does not fit on a line of its own is cut, at the end of that line
+Cut == /\ scn.ow /\ scn.ws # "nowrap" /\ line = <<>> /\ ItemW(scn, Rest) > Avail(scn, Len(lines))
 \* the next word goes on the current line if it fits, or if the line is empty (an unbreakable unit may overflow)
-Place == /\ phase = "fill" /\ i <= N(scn) /\ Fits
-         /\ ~(scn.ws = "pre-line" /\ line # <<>> /\ line[Len(line)] = scn.nl)
-         /\ line' = Append(line, i) /\ i' = i + 1 /\ UNCHANGED <<scn, lines, phase>>
+Place == /\ phase = "fill" /\ i <= N(scn) /\ Fits /\ ~AfterFeed /\ ~Cut
+         /\ line' = Append(line, Rest) /\ i' = i + 1 /\ off' = 0 /\ UNCHANGED <<scn, lines, phase>>
+PlacePart == /\ phase = "fill" /\ i <= N(scn) /\ Cut
+             /\ LET av == Avail(scn, Len(lines)) - Before(scn, Rest)
+                    c == IF av < 1 THEN 1 ELSE av IN
+                /\ lines' = Append(lines, [ps |-> <<[k |-> i, from |-> off + 1, to |-> off + c]>>, forced |-> FALSE])
+                /\ off' = off + c
+             /\ UNCHANGED <<scn, i, line, phase>>
 \* otherwise the line is closed (never earlier: greedy)
 Break == /\ phase = "fill" /\ i <= N(scn) /\ line # <<>>
-         /\ (~Fits \/ (scn.ws = "pre-line" /\ line[Len(line)] = scn.nl))
-         /\ lines' = Append(lines, [ks |-> line, forced |-> Fits]) /\ line' = <<>> /\ UNCHANGED <<scn, i, phase>>
+         /\ (~Fits \/ AfterFeed)
+         /\ lines' = Append(lines, [ps |-> line, forced |-> AfterFeed]) /\ line' = <<>> /\ UNCHANGED <<scn, i, off, phase>>
 Finish == /\ phase = "fill" /\ i > N(scn)
-          /\ lines' = IF line = <<>> THEN lines ELSE Append(lines, [ks |-> line, forced |-> TRUE])
-          /\ line' = <<>> /\ phase' = "done" /\ UNCHANGED <<scn, i>>
-Next == Place \/ Break \/ Finish
+          /\ lines' = IF line = <<>> THEN lines ELSE Append(lines, [ps |-> line, forced |-> TRUE])
+          /\ line' = <<>> /\ phase' = "done" /\ UNCHANGED <<scn, i, off>>
+Next == Place \/ PlacePart \/ Break \/ Finish
 Spec == Init /\ [][Next]_vars /\ WF_vars(Next)
 
 \* properties of the result -------------------------------------------------
-\* every word is placed exactly once, in order (conservation)
+\* every character of every word is placed exactly once, in order (conservation)
 Flat == LET RECURSIVE Cat(_)
-            Cat(ls) == IF ls = <<>> THEN <<>> ELSE Head(ls).ks \o Cat(Tail(ls)) IN Cat(lines)
-Conservation == phase = "done" => Flat = [k \in 1..N(scn) |-> k]
+            Cat(ls) == IF ls = <<>> THEN <<>> ELSE Head(ls).ps \o Cat(Tail(ls)) IN Cat(lines)
+Conservation == phase = "done" =>
+   /\ \A q \in 1..Len(Flat) : Flat[q].from <= Flat[q].to
+   /\ \A q \in 1..Len(Flat) - 1 : \/ (Flat[q].to = scn.words[Flat[q].k] /\ Flat[q + 1].k = Flat[q].k + 1 /\ Flat[q + 1].from = 1)
+                                     \/ (Flat[q + 1].k = Flat[q].k /\ Flat[q + 1].from = Flat[q].to + 1)
+   /\ Flat # <<>> /\ Flat[1].k = 1 /\ Flat[1].from = 1 /\ Flat[Len(Flat)].k = N(scn) /\ Flat[Len(Flat)].to = scn.words[N(scn)]
 \* a line never exceeds the available width unless it holds a single unbreakable unit (or wrapping is off)
 FitsWidth == phase = "done" => \A j \in 1..Len(lines) :
-   scn.ws = "nowrap" \/ Len(lines[j].ks) = 1 \/ LineW(scn, lines[j].ks) <= Avail(scn, j - 1)
-\* greedy: a line that was not ended by a forced break could not have taken the first word of the next line
+   scn.ws = "nowrap" \/ (Len(lines[j].ps) = 1 /\ (~scn.ow \/ lines[j].ps[1].to = lines[j].ps[1].from)) \/ LineW(scn, lines[j].ps) <= Avail(scn, j - 1)
+\* a word is cut only when it does not fit on a line of its own
+CutOnlyIfNeeded == phase = "done" => \A q \in 1..Len(Flat) :
+   (Flat[q].from > 1 \/ Flat[q].to < scn.words[Flat[q].k]) => (scn.ow /\ \E j \in 0..1 : ItemW(scn, Whole(scn, Flat[q].k)) > Avail(scn, j))
+\* greedy: a line that was not ended by a forced break could not have taken the first unit of the next line
 Greedy == phase = "done" => \A j \in 1..Len(lines) - 1 :
-   lines[j].forced \/ LineW(scn, Append(lines[j].ks, lines[j + 1].ks[1])) > Avail(scn, j - 1)
+   LET nx == lines[j + 1].ps[1] IN
+   \/ lines[j].forced
+   \/ nx.from > 1 /\ LineW(scn, lines[j].ps) + 1 > Avail(scn, j - 1)
+   \/ nx.from = 1 /\ LineW(scn, Append(lines[j].ps, Whole(scn, nx.k))) > Avail(scn, j - 1)
 Terminates == <>(phase = "done")
 
-\* geometry of line j (1-based), in em: [x of the first glyph, width of the content]
+\* geometry of line j (1-based), in em: [x of the first glyph (in half em), width of the content]
 LastLine(j) == j = Len(lines) \/ lines[j].forced
 Geometry(j) ==
-  LET ks == lines[j].ks  lw == LineW(scn, ks)  av == Avail(scn, j - 1)  ind == IF j = 1 THEN scn.indent ELSE 0
-      free == IF av > lw THEN av - lw ELSE 0 IN
-  CASE scn.align = "right"  -> [x2 |-> 2 * (ind + free), w |-> lw]
-    [] scn.align = "center" -> [x2 |-> 2 * ind + free, w |-> lw]          \* x in half em
-    [] scn.align = "justify" /\ ~LastLine(j) /\ Len(ks) > 1 -> [x2 |-> 2 * ind, w |-> IF av > lw THEN av ELSE lw]
+  LET ps == lines[j].ps  lw == LineW(scn, ps)  av == Avail(scn, j - 1)  ind == IF j = 1 THEN scn.indent ELSE 0
+      free == IF av > lw THEN av - lw ELSE 0
+      al == IF LastLine(j) THEN (IF scn.last # "auto" THEN scn.last ELSE IF scn.align = "justify" THEN "left" ELSE scn.align)
+            ELSE scn.align IN
+  CASE al = "right"  -> [x2 |-> 2 * (ind + free), w |-> lw]
+    [] al = "center" -> [x2 |-> 2 * ind + free, w |-> lw]
+    [] al = "justify" /\ Len(ps) > 1 -> [x2 |-> 2 * ind, w |-> IF av > lw THEN av ELSE lw]
     [] OTHER -> [x2 |-> 2 * ind, w |-> lw]
 
-Emit == phase = "done" => PrintT(ToJson([scn |-> scn, lines |-> [j \in 1..Len(lines) |-> [ks |-> lines[j].ks, g |-> Geometry(j)]]]))
+Emit == phase = "done" => PrintT(ToJson([scn |-> scn, lines |-> [j \in 1..Len(lines) |-> [ps |-> lines[j].ps, g |-> Geometry(j)]]]))
 =============================================================================
